@@ -83,6 +83,40 @@ def u_table(ctx, kind, form, light=False):
     ctx.check("outside=value-at-nearest-edge-point", Implies(outside, Eq(val, edge)))
 
 
+def u_twins(ctx, kind, form="ct2x2x2"):
+    """Two components of one kind with DIFFERENT tables (same axes), evaluated one after the other at the same query point: each
+    returns the value of its OWN table.  The proxies are made hashable (one bucket) for the duration, so a lookup cache keyed on the
+    query point compares keys through the solver instead of being invisible (unhashable) to the engine."""
+    from .. import symx
+
+    PA = params(ctx, kind, "A", form, only=())
+    PB = params(ctx, kind, "B", form, only=())
+    for P in (PA, PB):
+        for row in P[TABLE_KEY[kind]].z:
+            for e in row:
+                ctx.assume(And(Gt(e, 0.0), Le(e, 1.0)) if kind == "Converter" else Ge(e, 0.0))
+        ctx.assume(spec.valid(kind, P))
+    a, b = construct(kind, "A", PA), construct(kind, "B", PB)
+    x, y = ctx.real("x"), ctx.real("y")
+    ctx.assume(x >= 0)
+    ctx.assume(y >= 0)
+    old = symx.SymReal.__hash__
+    symx.SymReal.__hash__ = lambda self_: 0
+    try:
+        va = a._ipr._interp(x, y)
+        vb = b._ipr._interp(x, y)
+        va2 = a._ipr._interp(x, y)
+    finally:
+        symx.SymReal.__hash__ = old
+    ctx.cover("evaluated")
+    if _is_nan(va) or _is_nan(vb) or _is_nan(va2):
+        ctx.fail("never-NaN", info={"branch": "twins"})
+        return
+    ctx.check("first-table-own-value", Eq(va, PA[TABLE_KEY[kind]].value(x, y)))
+    ctx.check("second-table-own-value", Eq(vb, PB[TABLE_KEY[kind]].value(x, y)))
+    ctx.check("first-table-again", Eq(va2, va))
+
+
 def u_flat(ctx, kind, form):
     """A table whose entries all equal c behaves as the constant c in every law of that kind."""
     c = ctx.real("c")
@@ -193,9 +227,11 @@ META = {
                    "contract models (DESIGN 1.4) that are differentially validated against numpy/scipy on every run.",
     "functions": ["components._check_interp", "components._Interp1d.__init__/_interp", "components._Interp2d.__init__/_interp",
                   "table flattening in VLoss/Converter/LinReg/PSwitch/PMux/Rectifier.__init__"],
-    "bounds": "1-D: <= 3 (quick) / 4 (thorough) io points, symbolic axes; 2-D: 2x2, 3x2 (quick), 3x3 (thorough) with concrete axes "
-              "(exact NRA) and 2x2 symbolic axes (UF) for the clamping cascade; query point any x,y >= 0",
-    "outside": "Qhull itself (contract model), ill-conditioned grids, vi rows not in increasing order, binary64 hull-boundary effects",
+    "bounds": "1-D: <= 3 (quick) / 4 (thorough) io points, symbolic axes; 2-D: 2x2 (quick) and 3x2 (thorough) with concrete axes (exact NRA), "
+              "also written with negative vi rows (descending magnitude); 2x2, 3x2, 2x3 symbolic axes (UF) for the clamping cascade; two "
+              "components with different tables at one query point (u_twins); query point any x,y >= 0.  3x3 exact tables are NOT claimed "
+              "(z3 answers unknown or exceeds 20 min per instance)",
+    "outside": "Qhull itself (contract model), ill-conditioned grids, vi rows in neither increasing nor decreasing order, binary64 hull-boundary effects",
     "assumptions": ["floats as reals", "io axis >= 0 strictly increasing, vi rows > 0 strictly increasing",
                     "callers pass |io|, |vi| (checked by C01 for every law)"],
 }
@@ -209,17 +245,19 @@ def instances(tier):
         if tier == "quick" and kind in ("VLoss", "PSwitch"):
             forms.append("ct2x2x2")
         # a table written for a negative rail: vi rows negative (descending in magnitude); same function of (|io|, |vi|)
-        forms.append("nct2x2x2" if tier == "quick" or kind not in ("VLoss", "PSwitch", "RectM") else "nct2x3x3")
+        forms.append("nct2x2x2" if tier == "quick" or kind not in ("VLoss", "PSwitch", "RectM") else "nct2x3x2")
         if tier == "thorough" and kind in ("VLoss", "PSwitch", "RectM"):
-            forms += ["ct2x3x2", "ct2x3x3"]
+            forms += ["ct2x3x2"]  # (3x3 exact tables: z3 returns unknown / exceeds 20 min per instance - not claimed)
         for form in forms:
             out.append(Instance("C10", "c10:u_table", dict(kind=kind, form=form), cover=["evaluated"], weight=10 if "t2" in form else 1,
-                                **({"time_limit": 3000} if tier == "thorough" else {})))
-        for form in (["t2x2x2", "t2x3x2"] if tier == "quick" else ["t2x2x2", "t2x3x2", "t2x2x3", "t2x3x3"]):
+                                **({"time_limit": 1200} if tier == "thorough" else {})))
+        for form in (["t2x2x2", "t2x3x2"] if tier == "quick" else ["t2x2x2", "t2x3x2", "t2x2x3"]):
             out.append(Instance("C10", "c10:u_table", dict(kind=kind, form=form, light=True), name="c10:u_table/UF-light/%s/%s" % (kind, form),
                                 uf=True, cover=["evaluated"], weight=10))
         for form in ("t1x2", "ct2x2x2"):
             out.append(Instance("C10", "c10:u_flat", dict(kind=kind, form=form), cover=["evaluated"], weight=5))
+    for kind in ("PSwitch", "Converter"):
+        out.append(Instance("C10", "c10:u_twins", dict(kind=kind), cover=["evaluated"], weight=10))
     # "the sign of the lookup arguments is ignored": every law of every kind with a table, for vi of either sign
     for kind in kinds:
         if kind == "PMux":
